@@ -117,6 +117,31 @@ func c09Scenario(kinds []string, bound int) *world.Scenario {
 func c09Scenarios(tier string) []*world.Scenario {
 	var out []*world.Scenario
 	alpha := []string{"FA", "FB", "M2"}
+	// the open-loop client also reads slowly: flushes meet EAGAIN / short writes and must be resumed when it drains
+	for _, p := range [][]string{{"FA", "FB", "FA"}, {"FA", "FA", "FA"}, {"M2", "FA"}} {
+		b := 3
+		if tier == "thorough" {
+			b = 4
+		}
+		sc := c09Scenario(p, b)
+		sc.Clients[0].Slow = true
+		sc.WriteOracle = true
+		sc.Family = "open-loop-slow"
+		sc.Name += "/slow-reader"
+		inner := sc.Quiescent
+		sc.Quiescent = func(w *world.World) *world.Violation {
+			if len(w.Clients) > 0 && w.Clients[0].Sock != nil && w.Clients[0].Sock.Unwritable {
+				return nil // the client's receive window is closed: nothing can be delivered right now
+			}
+			if len(w.Clients) > 0 && w.Clients[0].Accepted && !w.Clients[0].Sock.Closed {
+				if in, ok := vsys.Interest(w.Clients[0].Sock.Fd); ok && in&0x4 != 0 {
+					return nil // a backlog is waiting for the writable event that is already armed
+				}
+			}
+			return inner(w)
+		}
+		out = append(out, sc)
+	}
 	for n := 2; n <= 4; n++ {
 		for _, p := range pipelines(alpha, n) {
 			b := 3
@@ -242,6 +267,31 @@ func c10Scenarios(tier string) []*world.Scenario {
 	out = append(out, c10Scenario("set-mget-del-get",
 		[][]Req{{set(a1, "m"), mget([]string{"m", ""}, a1, a2), func() Req { r := DelReq(a1); r.Expect = []byte(":1\r\n"); return r }(), func() Req { r := GetReq(a1); r.Expect = []byte("$-1\r\n"); return r }()}},
 		[][]rd{{{"set", []string{a1}, "m"}, {"mget", []string{a1, a2}, ""}, {"del", []string{a1}, ""}, {"get", []string{a1}, ""}}}, b))
+	// another client is closed for invalid input in the same loop batch in which its valid first request was routed
+	{
+		garbage := append(world.Cmd("get", a2), []byte("GARBAGE\r\n")...)
+		closer := world.ClientSpec{Chunks: []world.Chunk{{Data: garbage}}, Reqs: [][]byte{garbage}, Expect: [][]byte{nil}}
+		sc := c10Scenario("invalid-input-closer|set-get", [][]Req{{set(a0, "w"), get(a0, "w")}}, [][]rd{{{"set", []string{a0}, "w"}, {"get", []string{a0}, ""}}}, 3)
+		sc.Clients = append([]world.ClientSpec{closer}, sc.Clients...)
+		sc.Family = "closer"
+		base := sc.Check
+		sc.Check = func(w *world.World) []world.Violation {
+			// judge the second client (index 1) with the stream oracle: shift expectations
+			c := w.Clients[1]
+			rs, _, _ := world.SplitReplies(c.Received)
+			for j, r := range rs {
+				if j < len(c.Spec.Expect) && !bytes.Equal(r, c.Spec.Expect[j]) {
+					return []world.Violation{{Sig: "read-missed-own-write", Msg: fmt.Sprintf("client 1 request %d answered %q, reference %q", j, r, c.Spec.Expect[j])}}
+				}
+			}
+			if len(rs) < len(c.Spec.Expect) && !c.ProxyClosed {
+				return []world.Violation{{Sig: "per-node-order-violated", Msg: fmt.Sprintf("client 1 received %d of %d replies (%q): replies on the node connection are matched out of step", len(rs), len(c.Spec.Expect), c.Received)}}
+			}
+			_ = base
+			return nil
+		}
+		out = append(out, sc)
+	}
 	// slow backend: the node reads slowly, so the proxy's outbound backlog to it builds up (ring part, then list
 	// part at 64 bytes) and is drained in pieces while further requests of the same client are queued
 	{
@@ -340,6 +390,26 @@ func c07Scenarios(tier string) []*world.Scenario {
 			}
 			out = append(out, c07Scenario(n, reqs[n], cs, b))
 		}
+	}
+	// one fragment is answered with a redirect first (its slot has just moved A->B): the merged result must still be
+	// the same for every arrival order of the redirect and of the other fragments' replies
+	for _, n := range []string{"mget-3nodes", "del-3nodes", "mset-3nodes", "mget-samenode-2"} {
+		sc := c07Scenario(n+"+moved", reqs[n], nil, -1)
+		moved := a
+		sc.Reply = func(w *world.World, bc *world.BConn, args [][]byte) ([]byte, int) {
+			if hasKey(args, moved) && bc.Addr == AddrA {
+				return movedTo(world.SpecSlot([]byte(moved)), AddrB), 0
+			}
+			return nil, 0
+		}
+		sc.Horizon = 200
+		out = append(out, sc)
+	}
+	// two fragment replies of one node arrive in one read
+	for _, n := range []string{"mget-samenode-2", "del-samenode", "mset-samenode-crlf"} {
+		sc := c07Scenario(n+"+coalesced", reqs[n], nil, -1)
+		sc.CoalesceAll = true
+		out = append(out, sc)
 	}
 	// the "thousands of keys" end of the quantifier: one long list over 3 nodes, all 6 routing orders x arrival orders
 	var keys []string
